@@ -1,4 +1,5 @@
 import OmbottModel.Py
+import OmbottModel.Py.IntLim
 import OmbottModel.Py.CharLit
 import OmbottModel.Model.Forms
 import OmbottModel.Model.StaticFile
@@ -221,7 +222,7 @@ def FileUpload.contentLength (u : FileUpload) : Except Exc Int :=
   match dictGet u.headers clHeader with
   | none => .ok (-1)
   | some (.str s) =>
-    match pyInt s with
+    match pyIntLim s with
     | some n => .ok n
     | none => .error (.py .valueError)
   | some (.hdr _) => .error (.py .typeError)
